@@ -2,6 +2,7 @@ package render
 
 import (
 	"bufio"
+	"bytes"
 	"context"
 	"errors"
 	"fmt"
@@ -173,6 +174,33 @@ func hwChildren(id string, times int) templ.Component {
 	})
 }
 
+// hwChildrenBuf is a hand-written callee that renders its children into a writer of its own
+// and copies the result out (so the children never see the parent's buffer).
+func hwChildrenBuf(id string) templ.Component {
+	return templ.ComponentFunc(func(ctx context.Context, w io.Writer) error {
+		ch := templ.GetChildren(ctx)
+		ctx = templ.ClearChildren(ctx)
+		var own bytes.Buffer
+		if err := ch.Render(ctx, &own); err != nil {
+			return err
+		}
+		_, err := io.WriteString(w, `<w id="`+id+`">`+own.String()+`</w>`)
+		return err
+	})
+}
+
+// hwToGoHTML renders kid through templ.ToGoHTML (the byte-buffer pool) and writes the result.
+func hwToGoHTML(kid templ.Component) templ.Component {
+	return templ.ComponentFunc(func(ctx context.Context, w io.Writer) error {
+		h, err := templ.ToGoHTML(ctx, kid)
+		if err != nil {
+			return err
+		}
+		_, err = io.WriteString(w, string(h))
+		return err
+	})
+}
+
 // hwForward is a hand-written layer that is itself given a block (which it drops) and hands
 // its own block on to inner with templ.WithChildren.
 func hwForward(inner, block templ.Component) templ.Component {
@@ -326,6 +354,12 @@ func (e *Env) Build(n *Node) templ.Component {
 		return hwChildren(n.S, n.N)
 	case "hwignore":
 		return hwIgnore(n.S)
+	case "hwchildrenbuf":
+		return hwChildrenBuf(n.S)
+	case "togohtml":
+		return hwToGoHTML(e.kid(n, 0))
+	case "jsonscript":
+		return templ.JSONScript("j"+fmt.Sprint(n.N), map[string]any{"v": n.S, "n": n.N, "list": []string{n.S, "x"}})
 	case "hwforward":
 		return hwForward(e.kid(n, 0), e.kid(n, 1))
 	case "hwnonce":
@@ -351,13 +385,13 @@ func genSpec(t *kernel.Tape, budget *int, depth int) *Node {
 		}
 		return n
 	}
-	leaf := []string{"lit", "lit0", "lit100", "text", "textmulti", "attr", "boolattr", "spread", "condattr", "href", "style", "comment", "rawel", "scriptexpr", "raw", "hwfail", "block", "noslot"}
+	leaf := []string{"lit", "lit0", "lit100", "text", "textmulti", "attr", "boolattr", "spread", "condattr", "href", "style", "comment", "rawel", "scriptexpr", "raw", "hwfail", "block", "noslot", "jsonscript"}
 	big := []string{"lit4000", "lit4090", "lit6000"}
-	inner := []string{"seq", "el", "ifelse", "switch", "callnoblock", "callblock", "passdownblock", "flush", "join", "gojoin", "hwwrap", "oncebody", "slotcall", "slottwicecall"}
+	inner := []string{"seq", "el", "ifelse", "switch", "callnoblock", "callblock", "passdownblock", "flush", "join", "gojoin", "hwwrap", "oncebody", "slotcall", "slottwicecall", "togohtml", "ownbufcall"}
 	mk := func(k string) *Node {
 		n := &Node{K: k}
 		switch k {
-		case "text", "textmulti", "attr", "condattr", "scriptexpr", "raw", "spread", "href", "block":
+		case "text", "textmulti", "attr", "condattr", "scriptexpr", "raw", "spread", "href", "block", "jsonscript":
 			n.S = exprValues[t.Choose(len(exprValues), "val")]
 			n.B = t.Bool("b")
 		case "boolattr":
@@ -369,6 +403,9 @@ func genSpec(t *kernel.Tape, budget *int, depth int) *Node {
 			n.N = t.Choose(40, "n")
 		case "noslot":
 			n.S = "ns"
+		}
+		if k == "jsonscript" {
+			n.N = t.Choose(40, "n")
 		}
 		return n
 	}
@@ -411,6 +448,10 @@ func genSpec(t *kernel.Tape, budget *int, depth int) *Node {
 		return &Node{K: "callblock", Kids: []*Node{{K: "passdown", S: "p", Kids: []*Node{{K: "slot", S: "pi"}}}, sub()}}
 	case "flush":
 		return &Node{K: "flush", Kids: []*Node{sub()}}
+	case "togohtml":
+		return &Node{K: "togohtml", Kids: []*Node{sub()}}
+	case "ownbufcall":
+		return &Node{K: "callblock", Kids: []*Node{{K: "hwchildrenbuf", S: "o" + fmt.Sprint(t.Choose(100, "id"))}, sub()}}
 	case "hwwrap":
 		return &Node{K: "hwwrap", N: t.Choose(64, "wrapsize"), Kids: []*Node{sub()}}
 	case "oncebody":
